@@ -506,6 +506,7 @@ func c12(ctx *Ctx) {
 	if ctx.Thorough() {
 		pk = 300
 	}
+	c12PacketConcurrentReads(ctx)
 	for i := 0; i < pk; i++ {
 		fs, st := runC12Packet(r)
 		for _, f := range fs {
